@@ -143,12 +143,11 @@ Qed.
 
 (* ------------------------------------------------------------------ flags *)
 Definition flags_le (f f' : flags) : Prop :=
-  (x_rb f = true -> x_rb f' = true) /\ (x_drop f = true -> x_drop f' = true)
-  /\ (x_spign f = true -> x_spign f' = true).
+  (x_rb f = true -> x_rb f' = true) /\ (x_drop f = true -> x_drop f' = true).
 Lemma flags_le_refl : forall f, flags_le f f.
 Proof. intro f; repeat split; auto. Qed.
 Lemma flags_le_trans : forall a b c, flags_le a b -> flags_le b c -> flags_le a c.
-Proof. intros a b c [A1 [A2 A3]] [B1 [B2 B3]]; repeat split; auto. Qed.
+Proof. intros a b c [A1 A2] [B1 B2]; repeat split; auto. Qed.
 
 Section Prims.
 Variable E : env.
@@ -196,15 +195,15 @@ Proof.
   - destruct (h_sp E C fault true (NGen (s_gen s)) h (next_gen s)) as [h1 s1] eqn:Es.
     apply h_sp_flags in Es. cbn [next_gen s_fl] in Es.
     destruct h1 as [e|]; [inversion H; subst; exact Es|].
-    destruct (body None s1) as [[[r0 l0] h0] s2] eqn:Eb. apply HB in Eb.
+    destruct (body h s1) as [[[r0 l0] h0] s2] eqn:Eb. apply HB in Eb.
     assert (F2 : flags_le (s_fl s) (s_fl s2)) by (eapply flags_le_trans; eassumption).
     destruct r0.
     + inversion H; subst; exact F2.
-    + destruct (h_sp E C fault false (NGen (s_gen s)) None (if fault (length (s_ops s2)) then flag_rb s2 else s2)) as [h2 s3] eqn:Er.
+    + destruct (h_sp E C fault false (NGen (s_gen s)) h (if fault (length (s_ops s2)) then flag_rb s2 else s2)) as [h2 s3] eqn:Er.
       apply h_sp_flags in Er. inversion H; subst.
       eapply flags_le_trans; [exact F2|]. eapply flags_le_trans; [|exact Er].
       destruct (fault _); [|apply flags_le_refl]. repeat split; cbn; auto.
-    + destruct (h_sp E C fault false (NGen (s_gen s)) None (if fault (length (s_ops s2)) then flag_rb s2 else s2)) as [h2 s3] eqn:Er.
+    + destruct (h_sp E C fault false (NGen (s_gen s)) h (if fault (length (s_ops s2)) then flag_rb s2 else s2)) as [h2 s3] eqn:Er.
       apply h_sp_flags in Er. inversion H; subst.
       eapply flags_le_trans; [exact F2|]. eapply flags_le_trans; [|exact Er].
       destruct (fault _); [|apply flags_le_refl]. repeat split; cbn; auto.
@@ -235,11 +234,8 @@ Proof.
     + destruct (run_body E C fault k h1 s1) as [[[r1 l1] h2] s2] eqn:Ek. apply IHk in Ek.
       inversion H; subst. eapply flags_le_trans; eassumption.
     + destruct chk; [inversion H; subst; exact En|].
-      match type of H with context [run_body E C fault k h1 ?sx] => set (s1' := sx) in * end.
-      destruct (run_body E C fault k h1 s1') as [[[r1 l1] h2] s2] eqn:Ek. apply IHk in Ek.
-      inversion H; subst. eapply flags_le_trans; [exact En|]. eapply flags_le_trans; [|exact Ek].
-      subst s1'. destruct o0; try apply flags_le_refl. destruct entered; [apply flags_le_refl|].
-      repeat split; cbn; auto.
+      destruct (run_body E C fault k h1 s1) as [[[r1 l1] h2] s2] eqn:Ek. apply IHk in Ek.
+      inversion H; subst. eapply flags_le_trans; eassumption.
     + destruct rcv; [|inversion H; subst; exact En].
       destruct (run_body E C fault k h1 s1) as [[[r1 l1] h2] s2] eqn:Ek. apply IHk in Ek.
       inversion H; subst. eapply flags_le_trans; eassumption.
